@@ -49,6 +49,8 @@ def run_contracts(report: Report, contracts: list[Contract], jobs=None, prop_fil
                 continue
             if ob.verdict == VIOLATED:
                 replay(c, ob)
+            elif ob.verdict == UNDECIDED and c.search is not None and "outside verified subset" not in str(ob.detail.get("reason", "")):
+                native_search(c, ob)
             report.add(ob)
         report.function(target=c.name, paths=info.get("paths"), kind_combinations=info.get("combos"), wall_s=round(dt, 2),
                         **(getattr(c, "describe", None) or {}))
@@ -68,7 +70,8 @@ def evaluate_native(c: Contract, clause_fn, args):
     except Exception as e:
         return False, f"precondition raised {type(e).__name__}: {e}", None
     try:
-        res = c.native(*args)
+        names = [p for p, _ in c.params]
+        res = c.native(*[a for n, a in zip(names, args) if n not in c.ghost])
     except Exception as e:
         allowed = None
         for name, cond in c.raises.items():
@@ -131,3 +134,21 @@ def replay(c: Contract, ob: Ob, tries=400):
                 ob.detail["observed"] = out
                 ob.detail["witness_source"] = "native search after the solver model did not reproduce"
                 return
+
+
+def native_search(c: Contract, ob: Ob):
+    """The solver could not prove the obligation and gave no model (quantified VC under e-matching):
+    search the real function natively for an input that violates the clause."""
+    clause = ob.id.split("#", 1)[1].split("[")[0]
+    try:
+        found = c.search(clause)
+    except Exception as e:  # a crashing search never produces a verdict
+        ob.detail["native_search_error"] = f"{type(e).__name__}: {e}"
+        return
+    if found:
+        witness, observed = found
+        ob.verdict = VIOLATED
+        ob.replayed = True
+        ob.witness = witness
+        ob.detail["observed"] = observed
+        ob.detail["witness_source"] = "native search of the contract on the real function (solver returned no model)"
